@@ -28,7 +28,7 @@ class Scenario:
         ops = ", ".join(tla_op(o) for o in self.ops)
         init = " @@ ".join("%s :> <<%s, %d>>" % (q(k), q(v[0]), v[1]) for k, v in sorted(self.init.items())) or "<<>>"
         mod = "---- MODULE %s ----\nEXTENDS NunCluster\nOpsDef == <<%s>>\nInitDef == %s\n====\n" % (name, ops, init)
-        cfg = ("SPECIFICATION Spec\nCONSTANTS\n  Nodes = {%s}\n  P = %s\n  Ops <- OpsDef\n  InitStore <- InitDef\n"
+        cfg = ("SPECIFICATION Spec\nCONSTANTS\n  Nodes = {%s}\n  P = %s\n  Ops <- OpsDef\n  InitStore <- InitDef\n  Strategy = \"none\"\n"
                "INVARIANTS ConvergedAtQuiescence NothingPendingAtQuiescence Budget %s\n%s"
                "CHECK_DEADLOCK FALSE\n") % (", ".join(q(n) for n in self.nodes), q(self.nodes[0]),
                                             "EmitSchedule" if generate else "\nVIEW View",
